@@ -196,7 +196,7 @@ def classify(case):
 
 def plan(tier, seed):
     if tier == "quick":
-        return [{"kind": "faults", "examples": 12, "seed": seed * 1000 + k} for k in range(12)]
+        return [{"kind": "faults", "examples": 40, "seed": seed * 1000 + k} for k in range(16)]
     return [{"kind": "faults", "examples": 200, "seed": seed * 1000 + k} for k in range(16)]
 
 
